@@ -60,6 +60,16 @@ func (e *Env) emissionsOf(l *facts.Level, lf *ir.Leaf) (list []emission, builder
 				}
 				pieces = append(pieces, ef.Val.Args[1])
 			}
+			// fmt.Fprintf(&builder, format, args...) writes the same text as WriteString(fmt.Sprintf(format, args...))
+			if isCallOf(ef.Val, "fmt.Fprintf") && len(ef.Val.Args) == 3 && ef.Val.Args[0].Key() == bobj {
+				sp := e.externFunc(l.Pkg.Types, "fmt", "Sprintf")
+				if sp == nil {
+					return nil, true, fmt.Errorf("fmt.Sprintf not resolvable")
+				}
+				t := ir.Call(sp, ef.Val.Args[1], ef.Val.Args[2])
+				t.Pos = ef.Val.Pos
+				pieces = append(pieces, t)
+			}
 		}
 	case r.Op == ir.OConst && r.C != nil && r.C.Kind() == constant.String:
 		return nil, false, nil // constant text (error paths)
